@@ -1054,3 +1054,5 @@ func genTrace(r *rand.Rand, n int, tier string) []string {
 	}
 	return out[:n]
 }
+
+func init() { registerWorker("c12kworker", c12kWorkerMain) }
